@@ -62,6 +62,8 @@ func (t *Targets) clean() {
 	t.Rec.SetRecording(false)
 	t.SQLDB.Exec("DELETE FROM ws")
 	t.SQLDB.Exec("INSERT INTO ws(id,c1,s1) VALUES (1,1,'a'),(2,2,'b')")
+	t.SQLDB.Exec("DELETE FROM wss")
+	t.SQLDB.Exec("INSERT INTO wss(id,c1,s1,deleted_at) VALUES (1,1,'a',NULL),(2,2,'b',NULL),(3,3,'c','2020-01-01 00:00:00')")
 	t.Rec.SetRecording(true)
 }
 
